@@ -98,7 +98,7 @@ let dop_of (t : string) : dop * bool =
   | ["G"] -> (DString, true)
   | ["P"; k] -> (DPacked (skind_of k), true)
   | ["N"; b] -> (DNested, b = "1")
-  | ["K"; tag; wt] -> (DSkip (n_of_hex tag, n_of_hex wt), true)
+  | ["K"; tag; wt] -> (DSkip (z_of_hex tag, z_of_hex wt), true)
   | ["Z"; o; wh] -> (DSeek (z_of_hex o, z_of_hex wh), true)
   | ["R"] -> (DReset, true)
   | ["M"; b] -> (DSetMode (b = "1"), true)
@@ -153,9 +153,32 @@ let wire_case (toks : string list) : string =
   | ["SZK"; v] -> string_of_int (int_of_nat (size_key (n_of_hex v)))
   | _ -> failwith "bad wire case"
 
+(* ---------- tools: annotated hex, protodump ---------- *)
+let nlist_of s = if s = "-" then [] else List.map n_of_hex (split ',' s)
+let paths_of s = if s = "-" then [] else
+  List.map (fun p -> List.map (fun t -> n_of_hex (Printf.sprintf "%x" (int_of_string t))) (split '.' p)) (split ',' s)
+let dec_of_n x = string_of_int (int_of_n x)        (* field numbers and indents: small *)
+let wtname w = match int_of_n w with 0 -> "varint" | 1 -> "fixed64" | 2 -> "length-delimited" | 5 -> "fixed32" | _ -> "unknown"
+let str_rec = function
+  | RecVarint (i, t, v) -> Printf.sprintf "V%d:%s:%s" (int_of_nat i) (dec_of_n t) (hex_of_z v)
+  | RecFixed32 (i, t, v) -> Printf.sprintf "F%d:%s:%s" (int_of_nat i) (dec_of_n t) (hex_of_z v)
+  | RecFixed64 (i, t, v) -> Printf.sprintf "D%d:%s:%s" (int_of_nat i) (dec_of_n t) (hex_of_z v)
+  | RecBytes (i, t, b) -> Printf.sprintf "B%d:%s:%s" (int_of_nat i) (dec_of_n t) (hex_of_bytes b)
+  | RecString (i, t, b) -> Printf.sprintf "S%d:%s:%s" (int_of_nat i) (dec_of_n t) (hex_of_bytes b)
+  | RecHeader (i, t, w) -> Printf.sprintf "H%d:%s:%s" (int_of_nat i) (dec_of_n t) (wtname w)
+let tools_case (fam : string) (toks : string list) : string =
+  match fam, toks with
+  | "H", ["PARSE"; rs] -> (match parse (nlist_of rs) with Some b -> "ok " ^ hex_of_bytes b | None -> "err")
+  | "D", ["DUMP"; ex; st; input] ->
+    let (recs, status) = protodump { cexpand = paths_of ex; cstrings = paths_of st } (bytes_of_hex input) in
+    String.concat " " (List.map str_rec recs @ [match status with DumpOk -> "ok" | DumpErr -> "err" | DumpPanic -> "panic"])
+  | _ -> failwith "bad tools case"
+
 let dispatch (line : string) : string =
   match split ' ' line with
   | "W" :: rest -> wire_case rest
+  | "H" :: rest -> tools_case "H" rest
+  | "D" :: rest -> tools_case "D" rest
   | _ -> failwith ("unknown case family: " ^ line)
 
 let () =
